@@ -512,6 +512,10 @@ func (fc *funcContext) ResolveForwardGoto(target *gotoLabelDesc) {
 
 func (fc *funcContext) NewLabel() int {
 	ret := fc.labelId
+	if ret > opMaxArgSbx {
+		// label ids are kept in the sBx field of the jump until patchCode resolves them
+		raiseCompileError(fc, fc.Proto.LineDefined, "too many labels (control structures) in one function")
+	}
 	fc.labelId++
 	return ret
 }
@@ -1121,6 +1125,9 @@ func compileNumberForStmt(context *funcContext, stmt *ast.NumberForStmt) { // {{
 	context.LeaveBlock()
 
 	flpc := code.LastPC()
+	if flpc-bodypc+1 > opMaxArgSbx {
+		raiseCompileError(context, sline(stmt), "too long to jump.")
+	}
 	code.AddASbx(OP_FORLOOP, rindex, bodypc-(flpc+1), sline(stmt))
 
 	context.SetLabelPc(endlabel, code.LastPC())
@@ -1876,7 +1883,7 @@ func patchCode(context *funcContext) { // {{{
 			count := 0 // avoiding infinite loops
 			for jmp := inst; opGetOpCode(jmp) == OP_JMP && count < 5; jmp = context.Code.At(pc + distance + 1) {
 				d := context.GetLabelPc(opGetArgSbx(jmp)) - pc
-				if d > opMaxArgSbx {
+				if d > opMaxArgSbx || d < -opMaxArgSbx {
 					if distance == 0 {
 						raiseCompileError(context, context.Proto.LineDefined, "too long to jump.")
 					}
